@@ -96,6 +96,7 @@ func (s *streamer) getStream(streamID StreamID, streamName StreamName) *stream {
 func (s *streamer) makeCharged(stream *stream) {
 	s.chargedMu.Lock()
 	s.charged = append(s.charged, stream)
+	verifTrace(vtStreamCharge, stream, 0, 0, 0, 0)
 	s.chargedCond.Signal()
 	s.chargedMu.Unlock()
 }
@@ -113,7 +114,9 @@ func (s *streamer) joinStream() *stream {
 	l := len(s.charged)
 	stream := s.charged[l-1]
 	s.charged = s.charged[:l-1]
+	verifTrace(vtStreamPop, stream, 0, 0, 0, 0)
 	s.chargedMu.Unlock()
+	verifGate(vgStreamAfterPop, stream)
 	stream.attach()
 
 	return stream
@@ -160,6 +163,7 @@ func (s *streamer) heartbeat() {
 		s.blockedMu.Unlock()
 
 		for _, stream := range streams {
+			verifGate(vgStreamBeforeUnblock, stream)
 			stream.tryUnblock()
 		}
 	}
